@@ -136,6 +136,14 @@ def stepM (st : St) (toks : List String) : St × List String :=
         vs.foldl (fun t v => UTable.insertHash RZ P (UTable.ensure P t) (uintHash32 (hashKey v)).toNat) st.mb[r]!
       (setB (setM st r x) r b, [s!"drew={b01 (!vs.isEmpty && needsDraw old.v c h)}", showV x.v, showU x.u, showB b])
     | _, _, _, _, _ => bad st
+  | ["vals", r, d, _legacy, c, total, h, vs, hv, hc] =>
+    match reg? r 16, d.toNat?, c.toInt?, total.toInt?, h.toNat?, parseIntList? vs, parseIntList? hv, parseIntList? hc with
+    | some r, some d, some c, some total, some h, some vs, some hv, some hc =>
+      if hv.length ≠ hc.length then bad st else
+      let old := st.m[r]!
+      let x := applyValues d old vs (hv.zip hc) c total h
+      (setM st r x, [s!"drew={b01 (decide (0 < total) && needsDraw old.v c h)}", showV x.v])
+    | _, _, _, _, _, _, _, _ => bad st
   | ["ins", r, v] => match reg? r 16, v.toNat? with
     | some r, some v =>
       if v ≥ 18446744073709551616 then bad st else
